@@ -1,7 +1,7 @@
 """
 C17 - what is rendered does not depend on what was processed before.
 
-Four case kinds:
+Five case kinds:
   proto  - HelpResolver.create_resolved_command on a real command config whose leniency setting is
            None / True / False, with the inner call succeeding or raising; compared with the Lean protocol
   styles - sequences of TableStyle factory calls and border customisations on the real objects; the
@@ -13,6 +13,15 @@ Four case kinds:
            their public setters (formatter styles added / a predefined one restyled, another formatter, verbosity, quiet,
            interaction, indentation, terminal dimensions): the I/O of a run belongs to that run
   twice  - components rendered twice (tables with every predefined style, help pages, error traces)
+  render - histories of renderings and indentation scopes on ONE I/O object of varying CONSTRUCTION (BufferedIO; two
+           Output objects on two streams / on one stream; ONE Output object for both channels, IO(input, out, out);
+           section I/O; one section output for both channels), plain or decorated, at every verbosity, with an initial
+           indentation: tables, paragraphs, labeled paragraphs, name/version, help pages, error traces (which indent the
+           I/O while they render), user components writing to both channels and user components that open indentation
+           scopes of their own, rendered repeatedly, inside / after `with io.indent(n)`, `io.increment_indent(n)`,
+           `io.output.indent(n)`, ... scopes (nested, left by exceptions).  Every rendering is compared with the same
+           component as the FIRST thing rendered on a fresh I/O of the same construction inside the same scopes; the
+           `_indent` of both outputs before / after every rendering with the Lean model (Model/IndentShared.lean)
 """
 from harness import app_common as ac
 from harness import parser_common as pc
@@ -27,7 +36,11 @@ REQUIRED_THEOREMS = ["Clikit.Props.C17." + n for n in (
     # history independence on the stateful composed application model (Model/AppState.lean)
     "app_run_restores_state", "app_run_keeps_configured", "app_run_stateless", "app_history_results",
     "app_run_history_independent", "app_reused_eq_fresh", "d21_protocol_history_dependent",
-    "app_io_of_tokens", "app_io_history_independent")]
+    "app_io_of_tokens", "app_io_history_independent",
+    # renderings and indentation scopes on one I/O whose outputs may be ONE object (Model/IndentShared.lean)
+    "indent_restores_shared", "indent_enter_leave", "render_history_restores", "render_history_indentation_kept",
+    "render_independent_of_history", "render_twice_same", "late_snapshot_same_when_distinct",
+    "late_snapshot_leaks_when_shared")]
 TECHNIQUE = ("Lean 4 theorems over the two hidden-state protocols read from the source on every run (help resolver's "
              "leniency save/restore, table-style factories copying cached border styles) + C05 for the parser; differential "
              "histories on one real application vs fresh ones, style construction orders, render-twice")
@@ -57,7 +70,15 @@ LEVEL_TEXT = ("How HelpResolver.create_resolved_command restores the leniency it
               "runs of the real REUSED application: status, what happened, the command and arguments selected, the handler calls "
               "with their arguments, the I/O configuration every handler finds on entry (app_io_history_independent: decided by the "
               "tokens of that line alone, whatever earlier runs and their handlers did to THEIR I/O), and the "
-              "_lenient_args_parsing of every command's config after every run.")
+              "_lenient_args_parsing of every command's config after every run. "
+              "Renderings on one I/O (Model/IndentShared.lean): the outputs of an I/O are OBJECTS and both channels may be one "
+              "object, which every scope of the I/O then lists twice. Proved for every list of outputs (repetitions included), "
+              "every history of renderings and nested scopes, left normally or by exceptions: the indentation of every output "
+              "object afterwards is the one before (render_history_restores), every rendering finds the indentation of its "
+              "enclosing scopes only, hence the same whatever was rendered before (render_independent_of_history, "
+              "render_twice_same); recording the value to restore inside the loop of Indent.__init__ is the same protocol on two "
+              "objects and provably leaks on a shared one (late_snapshot_*). Tied by c17.render_hist: `_indent` of both outputs "
+              "before and after every rendering and at the end, on the objects of the real I/O (which are shared is read off by identity).")
 LEVEL_NOTE = ("Trusted: Lean kernel + standard axioms; tools/genparts/c17.py (AST matching of the try/finally and of the "
               "factories); the hand-written state model (only leniency + parser scratch + border heap are modelled: other "
               "state would be invisible to the theorems and is looked for by the history runs); harness. Render-twice "
@@ -72,18 +93,32 @@ RULE = ("proto: 3 settings x inner ok/raises (exhaustive); styles: all op sequen
         "with --ansi / -v / -vv / -q}, every handler writing tagged and verbosity-flagged lines to both streams; each "
         "history is also run through the stateful composed model; "
         "twice: tables x 4 styles, help pages, traces; "
-        "non-trivial = styles/hist cases of length >= 2; distinct = the case")
+        "render: 6 constructions of the I/O (BufferedIO, two outputs on two streams / on one stream, ONE Output object for both "
+        "channels, section I/O, one section output for both channels) x 13 components (tables, paragraphs, name/version, help "
+        "pages, traces, user components writing to both channels / opening indentation scopes) x {twice; between two traces; "
+        "inside and after an io scope; after an empty scope} (complete table), plus random histories (2-6 steps, scopes nested "
+        "to depth 3 over io / output / error output x set / increment, try/raise, 1-4 random components, plain / decorated, "
+        "every verbosity, width 40/80/120, initial indentation); table cells carry no style tags (D28); "
+        "non-trivial = styles/hist cases of length >= 2, render cases with >= 2 renderings; distinct = the case")
 TRUSTED_BASE = [
     "Lean 4.33 kernel; axioms within propext, Classical.choice, Quot.sound (audited per theorem on every run)",
     "tools/genparts/c17.py: what create_resolved_command restores and where; which factories copy; the border field tables",
     "lean/Clikit/Model/History.lean: the modelled hidden state (leniency per command, border-style heap); C05 for the parser object",
-    "harness/props/c17.py: history generator, fresh-vs-reused comparison, style op interpreter",
+    "harness/props/c17.py: history generator, fresh-vs-reused comparison, style op interpreter, interpreter of render "
+    "histories (builds the I/O constructions, reads `_indent` of the outputs and which output objects are one)",
+    "lean/Clikit/Model/IndentShared.lean: Indent over numbered output objects (hand-written from api/io/indent.py, io.py, "
+    "output.py); a rendering is taken to leave the indentation as it found it (compared after every rendering)",
     "lean/Clikit/Model/AppState.lean: the stateful composed application model (leniency settings per command, scratch state "
     "per installed parser object, the help resolver's toggle) on top of Model/App.lean; tied by c17.app_hist on every history",
 ]
 ASSUMPTIONS = [
     "hidden state other than the modelled one is searched for by differential histories, not excluded by proof",
-    "render-twice idempotence is checked on generated components, not proved",
+    "render-twice idempotence is checked on generated components, not proved: the model of render histories knows the "
+    "indentation of the outputs only (what a component writes is opaque to it); that a rendering equals the first "
+    "rendering on a fresh I/O of the same construction inside the same scopes is the oracle's comparison",
+    "render histories: table cells without style tags (a tagged word cut by the cell wrapper, known finding D28, stays "
+    "open in the formatter and colours later renderings); scopes of the I/O objects only, not of further sections created "
+    "during the history",
     "stateful composed model (runAppS): the state of an application object is taken to be the leniency setting of every "
     "command's config plus the scratch dictionaries of parser objects installed with set_args_parser; commands are identified "
     "by their name path (sibling commands with the same name are not generated); the tree's `lenient` field is the effective "
@@ -166,8 +201,108 @@ def generate(tier, rng):
         tree["global_flag"] = False
         lines = [rng.choice(IO_LINES) if rng.random() < 0.6 else rng.choice(LINES) for _ in range(rng.randint(2, 6))]
         yield {"k": "hist", "tree": tree, "lines": lines, "shared_parser": rng.random() < 0.4}
-    for _ in range(40 if tier == "quick" else 400):
-        yield {"k": "twice", "seed": rng.randrange(10 ** 6)}
+    # the `twice` cases are by far the most expensive ones: spread among the (cheap) render cases, so that the chunks the
+    # pipeline hands to its workers contain one of them at most
+    twice = [{"k": "twice", "seed": rng.randrange(10 ** 6)} for _ in range(40 if tier == "quick" else 400)]
+    for i, case in enumerate(_gen_render(tier, rng)):
+        if i % 10 == 0 and twice:
+            yield twice.pop(0)
+        yield case
+    for case in twice:
+        yield case
+
+
+# ---- generator of `render` cases --------------------------------------------------------------------------------
+WORDS = ["a", "bb", "ccc", "dddd", "<b>bold</b>", "<info>tag</info>", "longer-word", "x"]
+PLAIN_WORDS = [w for w in WORDS if "<" not in w]
+# one component of every kind (the systematic part renders each of them on every construction of the I/O)
+COMP_POOL = [
+    {"c": "table", "style": 2, "header": ["ISBN", "Title"], "rows": [["99921-58-10-7", "Divine Comedy"], ["9971-5-0210-0", "A Tale of Two Cities"]], "ind": 0},
+    {"c": "table", "style": 0, "header": None, "rows": [["a <b>b</b>", "c"]], "ind": 2},
+    {"c": "para", "text": "Lorem ipsum dolor sit amet, consetetur sadipscing elitr, sed diam nonumy eirmod tempor invidunt ut labore", "ind": 0},
+    {"c": "labeled", "label": "<c1>--option</c1>", "text": "what the option does, in more words than fit on a narrow line", "ind": 2},
+    {"c": "nv"},
+    {"c": "help"},
+    {"c": "help", "cmd": "probe"},
+    {"c": "trace", "e": 0},
+    {"c": "trace", "e": 1},
+    {"c": "trace", "e": 0, "simple": True},
+    {"c": "lines", "text": "one line per channel", "ind": 0},
+    {"c": "block", "text": "section", "t": "io", "inc": True, "n": 2, "nested": True},
+    {"c": "block", "text": "part", "t": "out", "inc": False, "n": 3},
+]
+
+
+def _gen_comp(rng):
+    c = rng.choice(["table", "para", "labeled", "empty", "nv", "help", "help", "trace", "trace", "trace", "lines", "lines",
+                    "block", "block"])
+    text = " ".join(rng.choice(WORDS) for _ in range(rng.randint(1, 14)))
+    if c == "table":
+        ncol = rng.randint(1, 3)
+        return {"c": c, "style": rng.randrange(4), "header": ["h%d" % i for i in range(ncol)] if rng.random() < 0.7 else None,
+                # cells without style tags: a tagged word in a cell that must wrap is cut inside the tag (known finding
+                # D28 / c14_styled_cell_wrapped, C14's generator keeps them out as well) - and the half tag then stays
+                # open in the formatter, see the report of this round
+                "rows": [[" ".join(rng.choice(PLAIN_WORDS) for _ in range(rng.randint(1, 6))) for _ in range(ncol)]
+                         for _ in range(rng.randint(1, 3))], "ind": rng.choice([0, 0, 2, 5])}
+    if c in ("para", "lines"):
+        return {"c": c, "text": text, "ind": rng.choice([0, 0, 1, 4])}
+    if c == "labeled":
+        return {"c": c, "label": rng.choice(WORDS), "text": text, "ind": rng.choice([0, 2])}
+    if c == "help":
+        return {"c": c, "cmd": rng.choice([None, "probe", "lenient", "tweak"])}
+    if c == "trace":
+        return {"c": c, "e": rng.randrange(2), "simple": rng.random() < 0.15}
+    if c == "block":
+        return {"c": c, "text": rng.choice(["section", "part", "chapter"]), "t": rng.choice(["io", "io", "out", "err"]),
+                "inc": rng.random() < 0.6, "n": rng.choice([0, 1, 2, 4]), "nested": rng.random() < 0.4}
+    return {"c": c}
+
+
+def _gen_steps(rng, ncomp, depth, n, in_try):
+    steps = []
+    for _ in range(n):
+        r = rng.random()
+        if depth < 3 and r < 0.3:
+            steps.append({"scope": rng.choice(["io", "io", "out", "err"]), "inc": rng.random() < 0.5,
+                          "n": rng.choice([0, 1, 2, 3, 4, 8]),
+                          "body": _gen_steps(rng, ncomp, depth + 1, rng.randint(0, 3), in_try)})
+        elif depth < 3 and r < 0.4:
+            steps.append({"try": _gen_steps(rng, ncomp, depth + 1, rng.randint(1, 3), True)})
+        elif r > (0.85 if in_try else 0.99):
+            steps.append({"raise": True})
+        else:
+            steps.append({"render": rng.randrange(ncomp)})
+    return steps
+
+
+def _gen_io(rng, kind=None):
+    from clikit.api.io.flags import DEBUG, NORMAL, VERBOSE, VERY_VERBOSE
+    kind = kind or rng.choice(IO_KINDS + ["merged", "merged"])
+    base = rng.choice([[0, 0], [0, 0], [0, 0], [2, 2], [3, 0], [0, 5]])
+    if kind in ("merged", "merged_section"):
+        base = [base[0], base[0]]
+    return {"kind": kind, "ansi": rng.random() < 0.4, "verbosity": rng.choice([NORMAL, NORMAL, VERBOSE, VERY_VERBOSE, DEBUG]),
+            "width": rng.choice([None, None, 40, 120]), "base": base}
+
+
+def _gen_render(tier, rng):
+    # systematic: every kind of component on every construction of the I/O - twice; between two traces (components that
+    # indent the I/O while they render); after a scope that enclosed it; after an empty scope
+    pool = list(range(len(COMP_POOL)))
+    pats = [lambda c: [{"render": c}, {"render": c}],
+            lambda c: [{"render": 7}, {"render": c}, {"render": 8}, {"render": c}],
+            lambda c: [{"scope": "io", "inc": True, "n": 2, "body": [{"render": c}]}, {"render": c}],
+            lambda c: [{"scope": "io", "inc": False, "n": 4, "body": []}, {"render": c}]]
+    for kind in IO_KINDS:
+        for c in pool:
+            for j, pat in enumerate(pats):
+                yield {"k": "render", "io": {"kind": kind, "ansi": False, "verbosity": 0, "width": None, "base": [0, 0]},
+                       "comps": COMP_POOL, "steps": pat(c)}
+    for _ in range(200 if tier == "quick" else 4000):
+        ncomp = rng.randint(1, 4)
+        yield {"k": "render", "io": _gen_io(rng), "comps": [_gen_comp(rng) for _ in range(ncomp)],
+               "steps": _gen_steps(rng, ncomp, 0, rng.randint(2, 6), False)}
 
 
 def exhaustive(tier):
@@ -577,8 +712,265 @@ def _twice(case):
     return {"diffs": diffs}
 
 
+# ---- renderings on ONE I/O object (case kind `render`) -------------------------------------------------------------
+# how the I/O is constructed.  What matters is which OBJECTS sit behind the two channels:
+#   buffered        BufferedIO: two Output objects, one formatter object
+#   split           IO(input, Output(s1, f1), Output(s2, f2)): two outputs, two streams, two formatters
+#   merged          IO(input, out, out): ONE Output object serves the standard and the error channel
+#   stream          two Output objects writing to ONE stream
+#   section         the section I/O of a split I/O (IO.section(): two SectionOutput objects)
+#   merged_section  IO(input, sec, sec) with one SectionOutput object
+IO_KINDS = ["buffered", "split", "merged", "stream", "section", "merged_section"]
+
+
+class _Stop(Exception):
+    pass
+
+
+def _make_io(spec):
+    """the I/O of a `render` case and the distinct stream objects behind it (standard channel first)"""
+    from clikit.api.io import IO, Input, Output
+    from clikit.formatter import AnsiFormatter, PlainFormatter
+    from clikit.io.buffered_io import BufferedIO
+    from clikit.io.input_stream.string_input_stream import StringInputStream
+    from clikit.io.output_stream.buffered_output_stream import BufferedOutputStream
+    from clikit.ui.rectangle import Rectangle
+
+    def fmt():
+        return AnsiFormatter(forced=True) if spec["ansi"] else PlainFormatter()
+    kind = spec["kind"]
+    if kind == "buffered":
+        io = BufferedIO(formatter=fmt())
+    else:
+        s1 = BufferedOutputStream()
+        out = Output(s1, fmt())
+        if kind in ("merged", "merged_section"):
+            err = out
+        else:
+            err = Output(s1 if kind == "stream" else BufferedOutputStream(), fmt())
+        if kind == "merged_section":
+            out = err = out.section()
+        io = IO(Input(StringInputStream("")), out, err)
+        if kind == "section":
+            io = io.section()
+    io.set_verbosity(spec["verbosity"])
+    if spec.get("width"):
+        io.set_terminal_dimensions(Rectangle(spec["width"], 20))
+    # the indentation the outputs have from the beginning (set outside any `with`: it stays)
+    base = spec.get("base") or [0, 0]
+    if base[0]:
+        io.output.indent(base[0])
+    if io.error_output is not io.output and base[1]:
+        io.error_output.indent(base[1])
+    streams = [io.output.stream]
+    if io.error_output.stream is not io.output.stream:
+        streams.append(io.error_output.stream)
+    return io, streams
+
+
+def _drain(streams):
+    texts = []
+    for st in streams:
+        texts.append(st.fetch())
+        st.clear()
+    return texts
+
+
+def _indents(io):
+    return [io.output._indent, io.error_output._indent]
+
+
+class _Lines(object):
+    """a user component: one line on each channel"""
+
+    def __init__(self, text):
+        self.text = text
+
+    def render(self, io, indentation=0):
+        io.write_line(" " * indentation + self.text)
+        io.error_line(" " * indentation + "<error>" + self.text + "</error>")
+
+
+class _Block(object):
+    """a user component that indents the I/O while it renders (as ExceptionTrace does): a heading, then an indented
+    body on both channels, through `io.indent` / `io.increment_indent` or through the scopes of the single outputs"""
+
+    def __init__(self, d):
+        self.d = d
+
+    def render(self, io, indentation=0):
+        from clikit.ui.components.paragraph import Paragraph
+        d = self.d
+        io.write_line("<b>" + d["text"] + "</b>")
+        tgt = {"io": io, "out": io.output, "err": io.error_output}[d["t"]]
+        with (tgt.increment_indent(d["n"]) if d["inc"] else tgt.indent(d["n"])):
+            Paragraph("body of " + d["text"]).render(io)
+            io.error_line("note on " + d["text"])
+            if d.get("nested"):
+                with io.increment_indent(1):
+                    io.write_line("deeper")
+        io.write_line("end of " + d["text"])
+
+
+class _Rendered(object):
+    def __init__(self, fn):
+        self.render = fn
+
+
+def _render_ctx():
+    """what the components of a case are built from: an application (help pages, name and version) and raised
+    exceptions (traces); built once per case, the SAME objects for the history and for the fresh references"""
+    from harness import c17_raise
+    app = _new_app({"commands": [], "global_flag": False})
+    excs = [c17_raise.caught(depth, msg) for depth, msg in ((0, "plain failure"), (2, "nested <b>failure</b>\nsecond line"))]
+    return {"app": app, "excs": excs}
+
+
+def _make_comp(d, ctx):
+    from clikit.ui.components.empty_line import EmptyLine
+    from clikit.ui.components.exception_trace import ExceptionTrace
+    from clikit.ui.components.labeled_paragraph import LabeledParagraph
+    from clikit.ui.components.name_version import NameVersion
+    from clikit.ui.components.paragraph import Paragraph
+    from clikit.ui.components.table import Table
+    from clikit.ui.help.application_help import ApplicationHelp
+    from clikit.ui.help.command_help import CommandHelp
+    from clikit.ui.style.table_style import TableStyle
+    c = d["c"]
+    ind = d.get("ind", 0)
+    if c == "table":
+        t = Table(getattr(TableStyle, FACTORIES[d["style"]])())
+        if d.get("header"):
+            t.set_header_row(list(d["header"]))
+        for r in d["rows"]:
+            t.add_row(list(r))
+        return _Rendered(lambda io: t.render(io, ind))
+    if c == "para":
+        x = Paragraph(d["text"])
+        return _Rendered(lambda io: x.render(io, ind))
+    if c == "labeled":
+        x = LabeledParagraph(d["label"], d["text"])
+        return _Rendered(lambda io: x.render(io, ind))
+    if c == "empty":
+        x = EmptyLine()
+        return _Rendered(lambda io: x.render(io, ind))
+    if c == "nv":
+        x = NameVersion(ctx["app"].config)
+        return _Rendered(lambda io: x.render(io, ind))
+    if c == "help":
+        x = ApplicationHelp(ctx["app"]) if not d.get("cmd") else CommandHelp(ctx["app"].get_command(d["cmd"]))
+        return _Rendered(lambda io: x.render(io, ind))
+    if c == "trace":
+        x = ExceptionTrace(ctx["excs"][d["e"]])
+        simple = bool(d.get("simple"))
+        return _Rendered(lambda io: x.render(io, simple))
+    if c == "lines":
+        x = _Lines(d["text"])
+        return _Rendered(lambda io: x.render(io, ind))
+    if c == "block":
+        x = _Block(d)
+        return _Rendered(lambda io: x.render(io, ind))
+    raise AssertionError(c)
+
+
+def _scope_of(io, st):
+    tgt = {"io": io, "out": io.output, "err": io.error_output}[st["scope"]]
+    return tgt.increment_indent(st["n"]) if st["inc"] else tgt.indent(st["n"])
+
+
+def _render_one(io, streams, comp):
+    try:
+        comp.render(io)
+        err = None
+    except _Stop:
+        raise
+    except Exception as e:  # noqa
+        err = type(e).__name__
+    return _drain(streams), err
+
+
+def _fresh_render(case, ctx, chain, k, memo):
+    """component `k` (a NEW component object made from the same description) as the first thing rendered on a
+    fresh I/O of the same construction, inside the scopes `chain` only"""
+    import contextlib
+    import json
+    key = json.dumps([chain, k])
+    if key not in memo:
+        io, streams = _make_io(case["io"])
+        comp = _make_comp(case["comps"][k], ctx) if k >= 0 else _Lines("the end")
+        with contextlib.ExitStack() as es:
+            for st in chain:
+                es.enter_context(_scope_of(io, st))
+            memo[key] = _render_one(io, streams, comp)
+    return memo[key]
+
+
+def _exec_steps(case, ctx, steps, io, streams, comps, chain, log, memo):
+    for st in steps:
+        if "render" in st:
+            k = st["render"]
+            before = _indents(io)
+            text, err = _render_one(io, streams, comps[k])
+            fresh, ferr = _fresh_render(case, ctx, chain, k, memo)
+            log.append({"c": k, "ind": before + _indents(io), "text": text, "raised": err, "fresh": fresh,
+                        "fresh_raised": ferr, "depth": len(chain)})
+        elif "scope" in st:
+            with _scope_of(io, st):
+                _exec_steps(case, ctx, st["body"], io, streams, comps,
+                            chain + [{"scope": st["scope"], "inc": st["inc"], "n": st["n"]}], log, memo)
+        elif "try" in st:
+            try:
+                _exec_steps(case, ctx, st["try"], io, streams, comps, chain, log, memo)
+            except _Stop:
+                pass
+        elif "raise" in st:
+            raise _Stop()
+        else:
+            raise AssertionError(st)
+
+
+def _render_hist(case):
+    ctx = _render_ctx()
+    io, streams = _make_io(case["io"])
+    comps = [_make_comp(d, ctx) for d in case["comps"]]
+    log, memo = [], {}
+    raised = False
+    _drain(streams)
+    try:
+        _exec_steps(case, ctx, case["steps"], io, streams, comps, [], log, memo)
+    except _Stop:
+        raised = True
+    end_ind = _indents(io)
+    # whatever happened: a line on each channel now looks as on a fresh I/O
+    end, _ = _render_one(io, streams, _Lines("the end"))
+    end_fresh, _ = _fresh_render(case, ctx, [], -1, memo)
+    return {"shared": io.output is io.error_output, "renders": log, "indent": end_ind, "raised": raised,
+            "end": end, "end_fresh": end_fresh}
+
+
+def _model_steps(steps):
+    out = []
+    for st in steps:
+        if "scope" in st:
+            out.append({"scope": st["scope"], "inc": st["inc"], "n": st["n"], "body": _model_steps(st["body"])})
+        elif "try" in st:
+            out.append({"try": _model_steps(st["try"])})
+        else:
+            out.append(st)
+    return out
+
+
+def _render_requests(case):
+    # which Output OBJECTS sit behind the two channels is read off the real I/O, by identity
+    io, _ = _make_io(case["io"])
+    shared = io.output is io.error_output
+    return [{"m": "c17.render_hist", "out": 0, "err": 0 if shared else 1, "base": _indents(io) if not shared
+             else [io.output._indent, 0], "steps": _model_steps(case["steps"])}]
+
+
 def run_impl(case):
-    return {"proto": _proto, "styles": _styles, "hist": _hist_tied, "twice": _twice}[case["k"]](case)
+    return {"proto": _proto, "styles": _styles, "hist": _hist_tied, "twice": _twice,
+            "render": _render_hist}[case["k"]](case)
 
 
 # ---- model side ------------------------------------------------------------------------------------
@@ -597,6 +989,8 @@ def model_requests(case):
         return [{"m": "c17.styles", "ops": ops}, {"m": "c17.styles_wf", "ops": ops}]
     if case["k"] == "hist":
         return _hist_requests(case)
+    if case["k"] == "render":
+        return _render_requests(case)
     return []
 
 
@@ -642,6 +1036,10 @@ def model_obs(case, answers):
         return {"borders": answers[0][3:3 + made], "wf": answers[1]}
     if case["k"] == "hist":
         return _hist_model_view(answers[0])
+    if case["k"] == "render":
+        # a rendering leaves the indentation as it found it (the scopes a component opens are closed again)
+        a = answers[0]
+        return {"seen": [[c, o, e, o, e] for c, o, e in a["seen"]], "indent": a["indent"], "raised": a["raised"]}
     return {}
 
 
@@ -658,6 +1056,9 @@ def impl_view(case, obs):
                 "wf": {"copies": obs["refs"] == list(range(3, 3 + made)), "refs": obs["refs"]}}
     if case["k"] == "hist":
         return _hist_view(obs)
+    if case["k"] == "render":
+        # `_indent` of the two outputs before and after every rendering, and at the end
+        return {"seen": [[r["c"]] + r["ind"] for r in obs["renders"]], "indent": obs["indent"], "raised": obs["raised"]}
     return {}
 
 
@@ -692,6 +1093,22 @@ def oracle(case, obs):
                 return "run %d (%r) on the re-used application: %s; on a fresh application: %s" % (
                     i, case["lines"][i], str(r)[:300], str(f)[:300])
         return None
+    if k == "render":
+        # every rendering gives what the component gives as the FIRST thing rendered on a fresh I/O of the same
+        # construction, inside the same enclosing scopes - whatever was rendered or scoped before
+        where = "an I/O (%s%s)" % (case["io"]["kind"], ", one Output object for both channels" if obs["shared"] else "")
+        for i, r in enumerate(obs["renders"]):
+            if r["text"] != r["fresh"] or r["raised"] != r["fresh_raised"]:
+                return ("rendering #%d on %s: component %d (%s)%s gives %r%s; as the first thing rendered on a fresh I/O of the "
+                        "same construction it gives %r%s" % (
+                            i, where, r["c"], case["comps"][r["c"]]["c"],
+                            " inside %d indentation scope(s)" % r["depth"] if r["depth"] else "",
+                            [t[:200] for t in r["text"]], " raising " + r["raised"] if r["raised"] else "",
+                            [t[:200] for t in r["fresh"]], " raising " + r["fresh_raised"] if r["fresh_raised"] else ""))
+        if obs["end"] != obs["end_fresh"]:
+            return "after the history on %s a line on each channel is written as %r, on a fresh I/O as %r" % (
+                where, obs["end"], obs["end_fresh"])
+        return None
     if obs["diffs"]:
         return "rendered differently the second time: %s" % ", ".join(obs["diffs"])
     return None
@@ -724,6 +1141,8 @@ def nontrivial_key(case, obs):
     import json
     if case["k"] == "styles" and len(case["ops"]) >= 2 or case["k"] == "hist":
         return json.dumps(case, sort_keys=True)
+    if case["k"] == "render" and len(obs["renders"]) >= 2:
+        return json.dumps(case, sort_keys=True)
     return None
 
 
@@ -733,6 +1152,11 @@ def bucket(case, obs):
         return "hist|len=%d%s" % (len(case["lines"]), "|handler changes its I/O" if tw else "")
     if case["k"] == "styles":
         return "styles|len=%d" % len(case["ops"])
+    if case["k"] == "render":
+        used = set(r["c"] for r in obs["renders"])
+        ind = any(case["comps"][c]["c"] in ("trace", "block") and not case["comps"][c].get("simple") for c in used)
+        return "render|io=%s%s%s" % (case["io"]["kind"], "|a component indents the I/O" if ind else "",
+                                     "|scopes" if any("render" not in st for st in case["steps"]) else "")
     return case["k"]
 
 
@@ -743,6 +1167,18 @@ def shrink(case):
             if len(l) > 1:
                 yield {"k": "hist", "tree": case["tree"], "lines": l[:i] + l[i + 1:], "shared_parser": case.get("shared_parser")}
         yield {"k": "hist", "tree": {"commands": [], "global_flag": False}, "lines": l, "shared_parser": case.get("shared_parser")}
+    if case["k"] == "render":
+        st = case["steps"]
+        for i in range(len(st)):
+            if len(st) > 1:
+                yield dict(case, steps=st[:i] + st[i + 1:])
+            inner = st[i].get("body", st[i].get("try"))
+            if inner is not None:
+                yield dict(case, steps=st[:i] + list(inner) + st[i + 1:])
+        io = case["io"]
+        for key, plain in (("ansi", False), ("verbosity", 0), ("width", None), ("base", [0, 0])):
+            if io.get(key) != plain:
+                yield dict(case, io=dict(io, **{key: plain}))
     if case["k"] == "styles":
         o = case["ops"]
         for i in range(len(o)):
